@@ -11,6 +11,9 @@ def sortedR (l : List Rat) : Bool := isSortedB l
 def okKv (p n : Nat) (U : List Rat) : Bool := decide (1 ≤ p) && decide (p + 1 ≤ n) && decide (U.length = n + p + 1) && sortedR U
 def inDom (p n : Nat) (U : List Rat) (u : Rat) : Bool := decide (fn U p ≤ u) && decide (u ≤ fn U n)
 
+/-- `sample_size = int(math.floor(1.0/delta + 0.5))` -/
+def sampleSize (delta : Rat) : Nat := ((1 / delta + 1/2).floor).toNat
+
 def doProject (rat : Bool) (pt : List Rat) : List Rat := if rat then project pt else pt
 
 def handleBasic : List String → Option String
@@ -85,6 +88,31 @@ def handleBasic : List String → Option String
       if !(okKv pu su Uu && okKv pv sv Uv && inDom pu su Uu u && inDom pv sv Uv v && P.length == su * sv) then return "ERR"
       let S := surfaceDersAt pu pv (fn Uu) (fn Uv) sv P (findSpanLinear pu (fn Uu) su u) (findSpanLinear pv (fn Uv) sv v) u v ord (tri == "1")
       return showPts2 (if rat == "1" then ratSurfaceDers S ord else S)
+  | ["cgrid", rat, p, us, ps, delta] => do
+      let p ← p.toNat?; let U ← parseList us; let P ← parsePts ps; let dl ← parseRat delta
+      if !(okKv p P.length U) || dl ≤ 0 then return "ERR"
+      let n := sampleSize dl
+      let ks := linspace (fn U p) (fn U P.length) n tolMult
+      return showPts (ks.map (fun u => doProject (rat == "1") (curvePoint p (fn U) P u)))
+  | ["sgrid", rat, pu, pv, uus, uvs, su, sv, ps, du, dv] => do
+      let pu ← pu.toNat?; let pv ← pv.toNat?; let Uu ← parseList uus; let Uv ← parseList uvs
+      let su ← su.toNat?; let sv ← sv.toNat?; let P ← parsePts ps; let du ← parseRat du; let dv ← parseRat dv
+      if !(okKv pu su Uu && okKv pv sv Uv && P.length == su * sv) || du ≤ 0 || dv ≤ 0 then return "ERR"
+      let kus := linspace (fn Uu pu) (fn Uu su) (sampleSize du) tolMult
+      let kvs := linspace (fn Uv pv) (fn Uv sv) (sampleSize dv) tolMult
+      return showPts (kus.flatMap (fun u => kvs.map (fun v =>
+        doProject (rat == "1") (surfacePoint pu pv (fn Uu) (fn Uv) su sv P u v))))
+  | ["vgrid", rat, pu, pv, pw, uus, uvs, uws, su, sv, sw, ps, du, dv, dw] => do
+      let pu ← pu.toNat?; let pv ← pv.toNat?; let pw ← pw.toNat?
+      let Uu ← parseList uus; let Uv ← parseList uvs; let Uw ← parseList uws
+      let su ← su.toNat?; let sv ← sv.toNat?; let sw ← sw.toNat?
+      let P ← parsePts ps; let du ← parseRat du; let dv ← parseRat dv; let dw ← parseRat dw
+      if !(okKv pu su Uu && okKv pv sv Uv && okKv pw sw Uw && P.length == su * sv * sw) || du ≤ 0 || dv ≤ 0 || dw ≤ 0 then return "ERR"
+      let kus := linspace (fn Uu pu) (fn Uu su) (sampleSize du) tolMult
+      let kvs := linspace (fn Uv pv) (fn Uv sv) (sampleSize dv) tolMult
+      let kws := linspace (fn Uw pw) (fn Uw sw) (sampleSize dw) tolMult
+      return showPts (kus.flatMap (fun u => kvs.flatMap (fun v => kws.map (fun w =>
+        doProject (rat == "1") (volumePoint pu pv pw (fn Uu) (fn Uv) (fn Uw) su sv sw P u v w)))))
   | _ => none
 
 end Drv
